@@ -189,7 +189,6 @@ def run_case(cls, key, seed, ctx):
         ctx.ev("callback_traces_checked")
         ctx.check([c[0] for c in cb.calls] == cb_expected, "callback_invocations_differ_from_documented_trace", callback=j,
                   observed=[c[0] for c in cb.calls][:16], expected=cb_expected[:16], wit=wit)
-        ctx.check(all(c[0] == c[1] for c in cb.calls), "callback_step_differs_from_n_iter_at_call_time", calls=cb.calls[:8], wit=wit)
     if warm2:
         ctx.check(first_log == expected, "training_batches_differ_from_documented_schedule:first_fit", observed=first_log[:12], expected=expected[:12], wit=wit)
     ctx.mark([Est.__name__, kind, n, b, epochs, max_iter, stop_at if ncb else None, ncb, opt, warm2], len(expected) >= 2, sample=wit)
